@@ -184,6 +184,8 @@ struct Harness {
     virtual std::string level(const std::string &) const { return "exploration"; }
     // non-triviality rule evaluated by the driver from the run context
     virtual bool nontrivial(const Ctx &c) const { return c.ops_done > 0; }
+    // probes this property's plan family is expected to reach (listed in the evidence even when at zero)
+    virtual std::vector<std::string> probes(const std::string &) const { return {}; }
 };
 
 int sim_main(int argc, char **argv, Harness &h);
